@@ -102,7 +102,7 @@ func init() {
 				W:       weights(Weights{"restore": 20, "commit": 8, "rmfile": 8, "rmdir": 5, "write": 16, "add": 14, "rm": 4, "fd-swap": 4, "edit-same-size": 4, "twins": 5, "restore-dir-probe": 6, "restore-family-probe": 6, "block-size-probe": 3, "update-ref-probe": 5, "junk": 0}),
 				Oracles: []HistOracle{orC09}}
 		})
-	checks["C10"] = histCheck("C10", []string{"C10.world_branch_create_succeeds", "C10.world_branch_delete_succeeds", "C10.world_switch_succeeds", "C10.world_branch_names_unique", "C10.world_init_spec", "C10.world_update_ref_spec", "C10.world_revparse_faithful", "C10.world_list_faithful", "C03.inv_run", "C10.world_others_keep", "C10.world_branch_switch_refused_unchanged", "C10.world_switch_spec", "C10.world_create_spec", "C10.world_delete_spec", "C10.world_rename_spec", "C10.world_switch_create_spec", "C03.inv_step", "C10.getBranchPos_correct", "C10.add_ok", "C10.add_dup", "C10.add_invalid", "C10.delete_ok", "C10.delete_current_refused", "C10.delete_unknown_refused", "C10.update_ok", "C10.update_unknown_refused", "C10.rename_ok", "C10.rename_dup_refused", "C10.others_keep", "C10.updateRef_spec", "C10.create_refused", "C10.delete_refused", "C10.switch_spec", "C10.add_lookup", "C10.delete_lookup", "C10.update_lookup", "C10.rename_lookup", "C10.add_refines", "C10.delete_refines", "C10.update_refines"}, histRule,
+	checks["C10"] = histCheck("C10", []string{"C10.world_switch_create_succeeds", "C10.world_branch_rename_succeeds", "C10.world_branch_create_succeeds", "C10.world_branch_delete_succeeds", "C10.world_switch_succeeds", "C10.world_branch_names_unique", "C10.world_init_spec", "C10.world_update_ref_spec", "C10.world_revparse_faithful", "C10.world_list_faithful", "C03.inv_run", "C10.world_others_keep", "C10.world_branch_switch_refused_unchanged", "C10.world_switch_spec", "C10.world_create_spec", "C10.world_delete_spec", "C10.world_rename_spec", "C10.world_switch_create_spec", "C03.inv_step", "C10.getBranchPos_correct", "C10.add_ok", "C10.add_dup", "C10.add_invalid", "C10.delete_ok", "C10.delete_current_refused", "C10.delete_unknown_refused", "C10.update_ok", "C10.update_unknown_refused", "C10.rename_ok", "C10.rename_dup_refused", "C10.others_keep", "C10.updateRef_spec", "C10.create_refused", "C10.delete_refused", "C10.switch_spec", "C10.add_lookup", "C10.delete_lookup", "C10.update_lookup", "C10.rename_lookup", "C10.add_refines", "C10.delete_refines", "C10.update_refines"}, histRule,
 		func(ctx *Ctx) *HistCfg {
 			return &HistCfg{Prop: "C10", Cases: tierN(ctx, 250, 2500), MinSteps: 10, MaxSteps: 40,
 				W: weights(Weights{"branch": 10, "branch-rename": 6, "branch-delete": 6, "branch-list": 4, "switch": 8, "switch-c": 5, "update-ref": 6,
